@@ -147,6 +147,25 @@ def main():
                 bad += 1
                 if bad <= 8:
                     print(f"  FAIL {outer.__name__}(u, u') with u == u' built separately: at {a} then at {b}: got {got}, fresh gives {want}")
+    # wide n-ary nodes (5 to 7 operands) with repeated, separately built, equal operands
+    for outer in (Add, Multiply):
+        for width in (5, 6, 7):
+            def mk(width=width, outer=outer):
+                ops = [Exponential(Add(Variable("x"), Constant(i % 2)), base=2) for i in range(width - 2)]
+                return outer(*ops, Variable("x"), Constant(3))
+            for a, b in itertools.permutations([1.0, 2.0, 0.5], 2):
+                z = mk()
+                outcome(lambda: z.at(a))
+                outcome(lambda: sm.Derivative(z).at(a))
+                got = (outcome(lambda: z.at(b)), outcome(lambda: sm.Derivative(z).at(b)),
+                       outcome(lambda: sm.LocatedDifferential(z, sm.Point(x=b)).component("x")))
+                zz = mk()
+                want = (outcome(lambda: zz.at(b)), outcome(lambda: sm.Derivative(zz).at(b)),
+                        outcome(lambda: sm.LocatedDifferential(zz, sm.Point(x=b)).component("x")))
+                if got != want:
+                    bad += 1
+                    if bad <= 8:
+                        print(f"  FAIL {outer.__name__} with {width} operands, some equal but distinct: at {a} then at {b}: got {got}, fresh gives {want}")
     # a call that raises part-way must leave nothing behind
     for kind in kinds:
         for p, q in itertools.permutations(points, 2):
